@@ -81,6 +81,13 @@ def dumpNode (n : Node) : List String :=
         ins acc) []).map (fun (_, p) =>
       let reps := (sortBy (·.1) p.replications).map fun (s, a) => s!"{escw s}:{if a then 1 else 0}"
       s!"D pend {p.opId} rc={p.replicateCount} ac={p.ackCount} {",".intercalate reps}")
+  ++ (n.pending.foldr (fun x acc =>
+        let rec insC : List (Nat × PendingOp) → List (Nat × PendingOp)
+          | [] => [x]
+          | y :: ys => if y.1 < x.1 then y :: insC ys else x :: y :: ys
+        insC acc) []).map (fun (_, p) =>
+      -- `get_copy` hands out the entry's own counters
+      s!"D pendcopy {p.opId} rc={p.replicateCount} ac={p.ackCount} full={if p.replicateCount = p.ackCount then 1 else 0}")
   ++ (sortBy (·.1) n.members).map (fun (_, m) => s!"D member {escw m.name} {roleStr m.role} {if m.connected then 1 else 0}")
 
 def respStr : Resp → String
